@@ -125,6 +125,7 @@ def run(ctx):
     directed = [
         (b'a=1 b={1 2 3} {} c={x=1 y=2} d="q r" e=yes\n', "struct(%s:i32,%s:seq(i32),%s:ign,%s:str,%s:bool)" % tuple(H(k) for k in "abcde")),
         (b'a={1 2} {} b={ {} k=v } c=3', "map(ign)"),
+        (b't={1 2} u={3 4} v=1', "struct(%s:tup(i32,i32),%s:tup(i32,i32),%s:i32)" % (H("t"), H("u"), H("v"))),
         (b't={1 2} u={3 4 5}', "struct(%s:tup(i32,i32),%s:tup(i32,i32))" % (H("t"), H("u"))),
         (b'a>=5 b<3 c==4 d=7', "map(prop(i32))"),
         (b'a = b c== d e = = f', "map(str)"),
@@ -163,12 +164,11 @@ def run(ctx):
             ncalls = int(o.split()[0].split("=")[1]) if o.endswith("ok") else len(txt) + 3
         except (ValueError, IndexError):
             continue
-        ks = list(range(ncalls)) if ncalls <= ctx.scale(12, 400) else sorted(set(rng.randrange(ncalls) for _ in range(ctx.scale(12, 400))))
+        ks = list(range(ncalls)) if ncalls <= ctx.scale(30, 400) else sorted(set(rng.randrange(ncalls) for _ in range(ctx.scale(30, 400))))
         for k in ks:
-            kindf = "FP"[(k + j) % 2] if ctx.tier == "quick" else None
-            for kf in ((kindf,) if kindf else ("F", "P")):
+            for kf in ("F", "P"):
                 dfault.append("\t".join(["c20.tde", "reader:%d:%s@%d%s" % (buf, sched, k, kf), enc, shp, hx(txt)]))
-                dfault.append("\t".join(["c20.tde.calls", "reader:%d:%s@%d%s" % (buf, sched, k, kf), enc, shp, hx(txt)]))
+            dfault.append("\t".join(["c20.tde.calls", "reader:%d:%s@%dF" % (buf, sched, k), enc, shp, hx(txt)]))
     idf, _ = ctx.correspond("text_de_directed_faults", dfault, nontrivial=lambda c, i: i in ("ERR:io", "err"))
     bdf = len(idf) - len(dfault)
     # oracle on the real code (C20_text_deser_reader_fault_at_k): a run with a failure at read call k that still returns
